@@ -176,7 +176,7 @@ def r2_pairing(repo: Repo, rep):
         comp_i = dump(nr2[2]) if nr2 is not None else None
         ok_comp = nr2 is not None and nr2[1] == "-1" and comp_i is not None and _component_loop(p, comp_i, v)
         rep.check(R, ok_comp, fi.site(g), fi.fq, "gradient component i (last axis) is accumulated, i over range(variable dimension)", f"accumulated term {dump(term)[-80:]}", "gradient component")
-        inner = _full_sum(g.args[0]) if g.args else None
+        inner = (_full_sum(kwarg(g, 'outputs', 0)) if kwarg(g, 'outputs', 0) is not None else None)
         nr = _narrow(inner) if inner is not None else None
         if nr is None or nr[0] != mo or nr[1] != "-1":
             rep.violation(R, fi.site(g), fi.fq, "a single output component (last axis, for every number of batch axes) is differentiated per (variable, i)", dump(g.args[0])[:80] if g.args else "", "differentiated component")
@@ -249,8 +249,8 @@ def r2_pairing(repo: Repo, rep):
         g2 = outer.value if isinstance(outer, ast.Subscript) and isinstance(outer.value, ast.Call) and attr_chain(outer.value.func) == "torch.autograd.grad" else None
         good, detail = False, f"term {dump(term)[-90:]}"
         if g2 is not None:
-            v = dump(g2.args[1]) if len(g2.args) > 1 else dump(kwarg(g2, "inputs"))
-            inner = _full_sum(g2.args[0]) if g2.args else None
+            v = dump(kwarg(g2, 'inputs', 1))
+            inner = (_full_sum(kwarg(g2, 'outputs', 0)) if kwarg(g2, 'outputs', 0) is not None else None)
             nr1 = _narrow(inner) if inner is not None else None
             if nr1 is not None:
                 i1, i2 = dump(nr1[2]), dump(nr2[2])
@@ -260,8 +260,8 @@ def r2_pairing(repo: Repo, rep):
                 fresh = isinstance(first, ast.Subscript) and isinstance(first.value, ast.Call) and attr_chain(first.value.func) == "torch.autograd.grad"
                 if fresh:
                     g1 = first.value
-                    src = _full_sum(g1.args[0]) if g1.args else None
-                    w1 = dump(g1.args[1]) if len(g1.args) > 1 else dump(kwarg(g1, "inputs"))
+                    src = (_full_sum(kwarg(g1, 'outputs', 0)) if kwarg(g1, 'outputs', 0) is not None else None)
+                    w1 = dump(kwarg(g1, 'inputs', 1))
                     ok1 = src is not None and dump(src) == mo and w1 == v
                     rep.check(R, ok1, fi.site(g1), fi.fq, "first derivative = grad(model_out.sum(), same variable)", f"{dump(g1)[:90]}", "first derivative")
                 elif gparam is not None and isinstance(first, ast.Name) and first.id == gparam:
@@ -306,9 +306,9 @@ def r2_pairing(repo: Repo, rep):
                 g = col.value if isinstance(col, ast.Subscript) and isinstance(col.value, ast.Call) and attr_chain(col.value.func) == "torch.autograd.grad" else None
                 comp_ok = False
                 if g is not None:
-                    inner = _full_sum(g.args[0]) if g.args else None
+                    inner = (_full_sum(kwarg(g, 'outputs', 0)) if kwarg(g, 'outputs', 0) is not None else None)
                     nr = _narrow(inner) if inner is not None else None
-                    wrt = dump(g.args[1]) if len(g.args) > 1 else dump(kwarg(g, "inputs"))
+                    wrt = dump(kwarg(g, 'inputs', 1))
                     comp_ok = nr is not None and nr[0] == mo and dump(nr[2]) == i and cols_ok and wrt == cols_over[0]
                 good = rows_ok and cols_ok and comp_ok
                 detail = f"rows over {i} in {dump(it)}, columns over {cols_over}, component ok: {comp_ok}"
